@@ -3,6 +3,7 @@ import Hgxv.Proofs.C04AggSpec
 import Hgxv.Proofs.C04Promote
 import Hgxv.Proofs.C04Dump
 import Hgxv.Proofs.C04Ext
+import Hgxv.Proofs.C04Raw
 /-! # C04 - MultiplexHypergraph keeps (hyperedge, layer) records; aggregation sums layers
 
 Objects (see `Model/C04.lean`, `Model/C04Spec.lean`): `Store` = the tables of the Python object, `step`/`run` =
@@ -504,3 +505,165 @@ example : (hashView (run (init true) C04_h2)).map (fun v => v.edges.map (·.1)) 
     (hashView (run (init true) C04_h2)).map (fun v => v.nodes) = some [(1, []), (2, []), (5, []), (9, [])] := by decide
 example : hashView (run (init true) C04_h1) ≠ hashView (run (init true) (C04_h1 ++ [.setWeight [1, 2] 0 7])) := by decide
 example : (adjTable (run (init true) C04_h2)) = [(9, []), (1, [1, 2]), (5, [1]), (2, [2])] := by decide
+
+
+/-! # Second extension round: raw setters and mixed histories, `expose ∘ populate`, a registry handed in from outside,
+layer metadata (replace semantics), isolated nodes in the aggregate, the hashing view with unorderable layer names -/
+
+/-- **The raw setters are plain assignments** (`set_edge_list`, `set_adj_dict`, `set_existing_layers`), for EVERY store, broken
+ones included: the matching getter returns what was set, no other table moves, handing a getter's result back changes
+nothing, and two different raw setters commute. -/
+theorem C04_raw_setters (s : Store) (t : List (Key × Nat)) (a : List (Node × List Nat)) (ls : List Layer) :
+    edgeTable (setEdgeList s t) = t ∧ adjTable (setAdjDict s a) = a ∧ getExistingLayers (setExistingLayers s ls) = ls ∧
+    adjTable (setEdgeList s t) = adjTable s ∧ getExistingLayers (setEdgeList s t) = getExistingLayers s ∧
+    edgeTable (setAdjDict s a) = edgeTable s ∧ getExistingLayers (setAdjDict s a) = getExistingLayers s ∧
+    edgeTable (setExistingLayers s ls) = edgeTable s ∧ adjTable (setExistingLayers s ls) = adjTable s ∧
+    (setEdgeList s t).rev = s.rev ∧ (setEdgeList s t).weights = s.weights ∧ (setEdgeList s t).emeta = s.emeta ∧
+    (setAdjDict s a).nmeta = s.nmeta ∧ (setAdjDict s a).rev = s.rev ∧
+    abs (setAdjDict s a) = abs s ∧ abs (setExistingLayers s ls) = { abs s with layers := ls } ∧
+    setEdgeList s (edgeTable s) = s ∧ setAdjDict s (adjTable s) = s ∧ setExistingLayers s (getExistingLayers s) = s ∧
+    setEdgeList (setAdjDict s a) t = setAdjDict (setEdgeList s t) a ∧
+    setExistingLayers (setAdjDict s a) ls = setAdjDict (setExistingLayers s ls) a ∧
+    setExistingLayers (setEdgeList s t) ls = setEdgeList (setExistingLayers s ls) t := by
+  refine ⟨rfl, rfl, rfl, rfl, rfl, rfl, rfl, rfl, rfl, rfl, rfl, rfl, rfl, rfl, rfl, rfl, rfl, rfl, rfl, rfl, rfl, rfl⟩
+
+/-- **Histories that go through the raw surface.** A history in which public calls are mixed with raw calls
+(`set_edge_list`, `set_adj_dict`, `set_existing_layers`, `populate_from_dict`) each of which hands back what the matching
+getter (`get_edge_list()`, `get_adj_dict()`, `get_existing_layers()`, `expose_data_structures()`) returns at that moment ends in
+the state of its public calls alone: the invariant holds and the abstraction is the run of the map, so every earlier theorem
+(queries, aggregate, overlap, hashing view) applies to it. -/
+theorem C04_raw_echo_history (w : Bool) (hm : HMeta) (rops : List RawOp) (he : echoes (init w hm) rops = true)
+    (hw : ∀ op ∈ pubOps rops, op.WF) :
+    rawRun (init w hm) rops = run (init w hm) (pubOps rops) ∧ Inv (rawRun (init w hm) rops) ∧
+    abs (rawRun (init w hm) rops) = Spec.run (Spec.init w hm) (pubOps rops) := by
+  have e := rawRun_echo _ rops he
+  rw [e]
+  exact ⟨rfl, C04_inv w hm _ hw, C04_refines w hm _ hw⟩
+
+/-- **`populate_from_dict ∘ expose_data_structures = id` and back.** For EVERY store (reachable or not) writing the
+dictionary and reading it gives the store back, whatever the receiving object held before (all ten tables are overwritten);
+for every dictionary that carries the ten table names with values of the right kind, reading it and writing it again gives
+back each of the ten entries. -/
+theorem C04_populate_expose (s r : Store) (d : Dump) (hd : Dump.WF d) :
+    populate (expose s) = s ∧ rawStep r (.populate (expose s)) = s ∧ (RawOp.populate (expose s)).echo s = true ∧
+    (∀ name ∈ tableNames, lookup (expose (populate d)) name = lookup d name) ∧ Dump.WF (expose s) := by
+  refine ⟨populate_expose s, populate_expose s, ?_, expose_populate d hd, ?_⟩
+  · simp [RawOp.echo, loadDump_expose]
+  · constructor <;> exact ⟨_, rfl⟩
+
+/-- **A registry handed in from outside** (`set_existing_layers`, what a loader or a filter does). After every history, any
+duplicate-free collection of layer names that contains every layer in use may replace the registry: `edge_overlap` still is
+the sum of the per-layer weights of the map, `get_existing_layers()` returns the collection, and nothing else of the
+abstract state moves.  (A registry that misses a layer in use loses that layer's weight: see the example below.) -/
+theorem C04_registry_set (w : Bool) (hm : HMeta) (ops : List Op) (hw : ∀ op ∈ ops, op.WF) (ls : List Layer) (hnd : ls.Nodup)
+    (hsup : ∀ k ∈ records (run (init w hm) ops), k.2 ∈ ls) :
+    (∀ raw, overlap (setExistingLayers (run (init w hm) ops) ls) raw = Spec.overlap (Spec.run (Spec.init w hm) ops) raw) ∧
+    getExistingLayers (setExistingLayers (run (init w hm) ops) ls) = ls ∧
+    abs (setExistingLayers (run (init w hm) ops) ls) = { Spec.run (Spec.init w hm) ops with layers := ls } := by
+  have h := C04_inv w hm ops hw
+  refine ⟨fun raw => ?_, rfl, ?_⟩
+  · rw [overlap_setLayers _ h ls hnd hsup raw, C04_refines w hm ops hw]
+  · rw [← C04_refines w hm ops hw]; rfl
+
+/-- **Layer metadata: replace semantics, every history.** `set_layer_metadata(l, v)` after any history makes
+`get_layer_metadata(l)` return `v` - whatever was stored before (a second call REPLACES, it does not merge) -, leaves the
+metadata of every other layer and the dataset metadata as they were, and touches neither nodes, records, weights nor the
+registry; `set_dataset_metadata` leaves every layer's metadata alone. -/
+theorem C04_layer_metadata_replace (w : Bool) (hm : HMeta) (ops : List Op) (l : Layer) (v v' : Nat) :
+    let s := run (init w hm) ops
+    (∀ l', layerMeta (run (init w hm) (ops ++ [.setLayerMeta l v])) l' = if l' = l then some v else layerMeta s l') ∧
+    (∀ l', layerMeta (run (init w hm) (ops ++ [.setLayerMeta l v, .setLayerMeta l v'])) l' =
+      if l' = l then some v' else layerMeta s l') ∧
+    datasetMeta (run (init w hm) (ops ++ [.setLayerMeta l v])) = datasetMeta s ∧
+    (∀ l', layerMeta (run (init w hm) (ops ++ [.setDatasetMeta v])) l' = layerMeta s l') ∧
+    datasetMeta (run (init w hm) (ops ++ [.setDatasetMeta v])) = some v ∧
+    { run (init w hm) (ops ++ [.setLayerMeta l v]) with hmeta := s.hmeta } = s := by
+  intro s
+  have e1 : run (init w hm) (ops ++ [.setLayerMeta l v]) = setLayerMeta s l v := by
+    rw [run_append]; rfl
+  have e2 : run (init w hm) (ops ++ [.setLayerMeta l v, .setLayerMeta l v']) = setLayerMeta (setLayerMeta s l v) l v' := by
+    rw [run_append]; rfl
+  have e3 : run (init w hm) (ops ++ [.setDatasetMeta v]) = setDatasetMeta s v := by
+    rw [run_append]; rfl
+  rw [e1, e2, e3]
+  refine ⟨fun l' => layerMeta_set s l l' v, fun l' => ?_, datasetMeta_setLayer s l v, fun l' => layerMeta_setDataset s l' v, ?_, rfl⟩
+  · rw [layerMeta_set, layerMeta_set]
+    by_cases hl : l' = l <;> simp [hl]
+  · unfold datasetMeta setDatasetMeta setAttrH
+    exact get?_set_self _ _ _
+
+/-- **Isolated nodes in the aggregate** (defect D17's neighbourhood). After every history the aggregate has exactly the nodes
+of the multiplex hypergraph in the same order, each with the metadata the map holds for it - in particular a node that
+belongs to no record (added by `add_node`, with or without metadata, or left behind by removals) is a node of the
+aggregate with that metadata, and it is in no hyperedge of the aggregate. -/
+theorem C04_aggregated_isolated (w : Bool) (hm : HMeta) (ops : List Op) (hw : ∀ op ∈ ops, op.WF) :
+    ∃ a : HSpec, aggregated (run (init w hm) ops) = some a ∧ a.nodes = (Spec.run (Spec.init w hm) ops).nodes ∧
+      keys a.nodes = nodes (run (init w hm) ops) ∧
+      (∀ n, get? a.nodes n = get? (Spec.run (Spec.init w hm) ops).nodes n) ∧
+      (∀ n, (∀ k ∈ records (run (init w hm) ops), n ∉ k.1) → ∀ e ∈ keys a.edges, n ∉ e) := by
+  have h := C04_inv w hm ops hw
+  obtain ⟨a, h1, _, h3, _, h5, _⟩ := C04_aggregated _ h
+  have hq := (C04_queries w hm ops hw).2.1
+  refine ⟨a, h1, h3.trans hq, by rw [h3]; rfl, fun n => by rw [h3, hq], ?_⟩
+  intro n hn e he hne
+  obtain ⟨l, hl⟩ := (h5 e).mp he
+  exact hn _ hl hne
+
+/-- **The hashing view when layer names cannot be ordered** (`ty l` = comparability class of the name of layer `l`; node
+labels are comparable).  After every history `expose_attributes_for_hashing()` RAISES (the `TypeError` of `sorted`; there is no
+fallback) exactly when some node set of the map lives in two layers whose names are of different classes; otherwise it
+returns the hashing view of the map (`C04_hash_view`), and in that case two records with the same node set always have names of
+one class, so the listing only ever orders comparable names.  With names of one class it never raises. -/
+theorem C04_hash_unorderable (ty : Layer → Nat) (w : Bool) (hm : HMeta) (ops : List Op) (hw : ∀ op ∈ ops, op.WF) :
+    let s := run (init w hm) ops
+    let sp := Spec.run (Spec.init w hm) ops
+    (hashViewT ty s = none ↔ ∃ e l l', (e, l) ∈ sp.records ∧ (e, l') ∈ sp.records ∧ ty l ≠ ty l') ∧
+    ((¬ ∃ e l l', (e, l) ∈ sp.records ∧ (e, l') ∈ sp.records ∧ ty l ≠ ty l') → hashViewT ty s = some sp.hashView) ∧
+    ((∀ l l', ty l = ty l') → hashViewT ty s = hashView s) := by
+  intro s sp
+  have hr : records s = sp.records := (C04_queries w hm ops hw).2.2.1
+  have hv : hashView s = some sp.hashView := C04_hash_view w hm ops hw
+  rw [← hr]
+  have hno : (¬ ∃ e l l', (e, l) ∈ records s ∧ (e, l') ∈ records s ∧ ty l ≠ ty l') → hashViewT ty s = some sp.hashView := by
+    intro hn
+    have : layerClash ty (records s) = false := by
+      cases hc : layerClash ty (records s) with
+      | false => rfl
+      | true => exact absurd ((layerClash_iff ty _).mp hc) hn
+    rw [hashViewT_of_noClash ty s this, hv]
+  refine ⟨⟨fun h0 => ?_, fun hc => hashViewT_of_clash ty s ((layerClash_iff ty _).mpr hc)⟩, hno, fun hc => ?_⟩
+  · apply Classical.byContradiction
+    intro hn
+    rw [hno hn] at h0
+    exact absurd h0 (by simp)
+  · rw [hno (by rintro ⟨e, l, l', _, _, ht⟩; exact ht (hc l l')), hv]
+
+/-! non-vacuity of the second extension round -/
+def C04_raw_h : List RawOp :=
+  [.pub (.addEdge [2, 1] 0 (some 8) none), .setEdgeList [(([1, 2], 0), 0)], .pub (.addEdge [1, 2] 1 (some 12) (some [(100, 1)])),
+   .setAdjDict [(1, [0, 1]), (2, [0, 1])], .setExistingLayers [0, 1], .pub (.addNode 7 (some [(101, 5)])),
+   .populate (expose (run (init true) [.addEdge [2, 1] 0 (some 8) none, .addEdge [1, 2] 1 (some 12) (some [(100, 1)]),
+                                      .addNode 7 (some [(101, 5)])])), .pub (.removeNode 1 true)]
+example : echoes (init true) C04_raw_h = true := by decide
+example : ∀ op ∈ pubOps C04_raw_h, op.WF := by decide
+example : records (rawRun (init true) C04_raw_h) = [([2], 0), ([2], 1)] ∧ (pubOps C04_raw_h).length = 4 := by decide
+-- a raw assignment that is NOT an echo leaves the refinement: the degree no longer is the map's
+example : echoes (init true) [.pub (.addEdge [2, 1] 0 none none), .setAdjDict [(1, []), (2, [0])]] = false ∧
+    degree (rawRun (init true) [.pub (.addEdge [2, 1] 0 none none), .setAdjDict [(1, []), (2, [0])]]) 1 .all = some 0 ∧
+    (abs (rawRun (init true) [.pub (.addEdge [2, 1] 0 none none), .setAdjDict [(1, []), (2, [0])]])).degree 1 .all = some 1 := by decide
+-- a registry that contains the layers in use (any order, extra names) keeps the overlap; one that misses a layer loses its weight
+example : overlap (setExistingLayers (run (init true) C04_ops) [5, 1, 0, 2]) [3, 2] = 19 ∧
+    overlap (setExistingLayers (run (init true) C04_ops) [1, 2]) [3, 2] < 19 := by decide
+example : Dump.WF (expose (run (init true) C04_ops)) := by constructor <;> exact ⟨_, rfl⟩
+example : layerMeta (run (init false) [.setLayerMeta 1 7, .setAttrH 100 3, .setLayerMeta 1 8, .setLayerMeta 0 9]) 1 = some 8 ∧
+    datasetMeta (run (init false) [.setLayerMeta 1 7, .setDatasetMeta 4, .setLayerMeta 2 8]) = some 4 := by decide
+-- node 9 is isolated WITH metadata, node 8 isolated without: both are nodes of the aggregate, in no hyperedge
+example : (aggregated (run (init true) [.addNode 9 (some [(100, 1)]), .addEdge [1, 2] 0 none none, .addNode 8 none])).map (·.nodes) =
+    some [(9, [(100, 1)]), (1, []), (2, []), (8, [])] := by decide
+-- layer names 0, 1 of class 0 (say ints) and 2 of class 1 (a string): {1,2} in layers 0 and 2 raises, in 0 and 1 does not;
+-- different node sets in layers 0 and 2 do not; removing the offending record makes the call succeed again
+example : hashViewT (tyOf [0, 0, 1]) (run (init true) [.addEdge [1, 2] 0 none none, .addEdge [2, 1] 2 none none]) = none ∧
+    (hashViewT (tyOf [0, 0, 1]) (run (init true) [.addEdge [1, 2] 0 none none, .addEdge [2, 1] 1 none none])).isSome = true ∧
+    (hashViewT (tyOf [0, 0, 1]) (run (init true) [.addEdge [1, 2] 0 none none, .addEdge [2, 3] 2 none none])).isSome = true ∧
+    (hashViewT (tyOf [0, 0, 1]) (run (init true) [.addEdge [1, 2] 0 none none, .addEdge [2, 1] 2 none none,
+      .removeEdge [1, 2] 0])).isSome = true := by decide
